@@ -121,7 +121,16 @@ REHASH_MENU = [opx.MENU_STATIC[0], opx.MENU_STEPS[0], opx.MENU_STEPS[2]]
 RESTORE_MENU = [opx.MENU_STATIC[0], opx.MENU_STEPS[0]]
 
 
+# a built file loses its creator while its producer stays (the producer is re-declared under the
+# same command with another output) and is then supplied as an input that nothing declares, or
+# declared static: what a former build product keeps of its state and hash in its new role
+REUSE_MENU = [opx.MENU_STATIC[0], opx.MENU_STEPS[0], opx.step_req("s1", ["a"], ["b2"]), opx.MENU_STEPS[2],
+              opx.MENU_STATIC[1]]
+
+
 def machine_for(kind, check):
+    if kind == "reuse":
+        return opx.Machine(menu=REUSE_MENU, check=check, targets_menu=((),), exits=["ok"], fs_events=False)
     if kind == "restore":
         m = opx.Machine(menu=RESTORE_MENU, check=check, targets_menu=((), ("c",)), exits=["ok"], allow_kill=False)
         m.fs_menu = [("touch_out", "b"), ("restore_out", "b")]
@@ -151,7 +160,8 @@ def jobs(tier, seed):
     full_depth, core_depth = (2, 4) if tier == "quick" else (3, 6)
     cycle_depth = 6 if tier == "quick" else 8
     kinds = [("full", full_depth), ("core", core_depth), ("cycle", cycle_depth), ("nested", cycle_depth),
-             ("rehash", 7 if tier == "quick" else 9), ("restore", 9 if tier == "quick" else 10)]
+             ("rehash", 7 if tier == "quick" else 9), ("restore", 9 if tier == "quick" else 10),
+             ("reuse", 8 if tier == "quick" else 10)]
     if tier == "thorough":
         # every pair of requests of the full menu as an alphabet of its own, searched deep
         import itertools
